@@ -213,6 +213,9 @@ def spectra_of(it):
 def run_item(it):
     common.load_wavespectra()
     f, d = grid(it["nf"], it["nd"], it["seed"])
+    if it.get("flow"):
+        # a frequency axis that ends below 0.333 Hz: the library's Hs adds no high-frequency tail there
+        f = np.linspace(0.05, 0.30, it["nf"]) + [0.0, 0.003, 0.006][it["seed"] % 3]
     E = spectra_of(it)
     if it.get("fdesc"):
         # the numpy-level functions accept a frequency axis stored in descending order (npstats.hs integrates |df|)
@@ -430,6 +433,11 @@ def run(rep, tier, seed, parts=None):
                           methods=["ptm1", "ptm2", "ptm3"], seed=seed, fdesc=True))
         items.append(dict(name="4x6-bumps3-descending-freq", fam="bumps", nf=4, nd=6, k=3, heights=[3.0, 1.0, 0.6] if a3[2] <= 0 else [a3[2], a3[1] if a3[1] > 0 else 0.5, 0.6 * (a3[1] if a3[1] > 0 else 0.5)],
                           cfgs=cfg3() + cfgw(WIND_SMALL[:4], (1, 2), (100,)), methods=["ptm1", "ptm2", "ptm3"], seed=seed, fdesc=True, slice=(0, 1500), rotate=True, per=2))
+        # grids ending below 0.333 Hz (no tail in the library's Hs, which ranks the partitions)
+        items.append(dict(name="3x4-structured-low-grid", fam="structured", nf=3, nd=4, alpha=a3, cfgs=cfg3() + cfgw(WIND_SMALL[:8], (1, 2, 3), (100,)),
+                          methods=["ptm1", "ptm2", "ptm3"], seed=seed, flow=True))
+        items.append(dict(name="4x6-bumps3-low-grid", fam="bumps", nf=4, nd=6, k=3, heights=[3.0, 1.0, 0.6] if a3[2] <= 0 else [a3[2], a3[1] if a3[1] > 0 else 0.5, 0.6 * (a3[1] if a3[1] > 0 else 0.5)],
+                          cfgs=cfg3() + cfgw(WIND_SMALL[:4], (1, 2), (100,)), methods=["ptm1", "ptm2", "ptm3"], seed=seed, flow=True, slice=(0, 1500), rotate=True, per=2))
         # many basins: more regional maxima than an 8-bit label can count (144, 289 and 324 on 24x24, 34x34, 36x36)
         for n in (24, 34, 36):
             nb = (n // 2) ** 2
